@@ -110,7 +110,14 @@ func request(k int, withProto, withExt bool) []byte {
 	var b strings.Builder
 	b.WriteString("GET /x HTTP/1.1\r\nHost: alias.example\r\nUpgrade: websocket\r\nConnection: Upgrade\r\nSec-WebSocket-Version: 13\r\nSec-WebSocket-Key: dGhlIHNhbXBsZSBub25jZQ==\r\n")
 	if withProto {
-		fmt.Fprintf(&b, "Sec-WebSocket-Protocol: nope.v0, %s\r\n", protoFor(k))
+		switch k % 3 {
+		case 0:
+			fmt.Fprintf(&b, "Sec-WebSocket-Protocol: nope.v0, %s\r\n", protoFor(k))
+		case 1: // a single token spanning the whole header value
+			fmt.Fprintf(&b, "Sec-WebSocket-Protocol: %s\r\n", protoFor(k))
+		case 2: // two headers
+			fmt.Fprintf(&b, "Sec-WebSocket-Protocol: nope.v0\r\nSec-WebSocket-Protocol: %s\r\n", protoFor(k))
+		}
 	}
 	if withExt {
 		fmt.Fprintf(&b, "Sec-WebSocket-Extensions: %s\r\n", extFor(k))
